@@ -132,7 +132,7 @@ func newApp() *app.Teleport {
 
 // Exec applies one operation to the application and returns the observation. cur is the header of the block
 // in progress (needed by out-of-band calls, which run on the deliver state like x/xibc/testing does).
-func Exec(a *app.Teleport, op Op, cur *tmproto.Header) (o Obs) {
+func Exec(a *app.Teleport, op Op, cur *tmproto.Header) (o Obs, evs []abci.Event) {
 	o.T = op.T
 	defer func() {
 		if r := recover(); r != nil {
@@ -155,11 +155,13 @@ func Exec(a *app.Teleport, op Op, cur *tmproto.Header) (o Obs) {
 		must(req.Unmarshal(hlib.UnHex(op.Req)))
 		*cur = req.Header
 		res := a.BeginBlock(req)
+		evs = res.Events
 		o.Events, o.NEvents = eventsDigest(res.Events)
 	case "tx":
 		res := a.DeliverTx(abci.RequestDeliverTx{Tx: hlib.UnHex(op.Req)})
 		o.Code, o.Space, o.GasW, o.GasU = res.Code, res.Codespace, res.GasWanted, res.GasUsed
 		o.Data = h256(res.Data)
+		evs = res.Events
 		o.Events, o.NEvents = eventsDigest(res.Events)
 		o.Log = h256([]byte(res.Log))
 		if res.Code != 0 {
@@ -172,6 +174,7 @@ func Exec(a *app.Teleport, op Op, cur *tmproto.Header) (o Obs) {
 		var req abci.RequestEndBlock
 		must(req.Unmarshal(hlib.UnHex(op.Req)))
 		res := a.EndBlock(req)
+		evs = res.Events
 		o.Events, o.NEvents = eventsDigest(res.Events)
 		x := []byte{}
 		for _, vu := range res.ValidatorUpdates {
@@ -197,7 +200,7 @@ func Exec(a *app.Teleport, op Op, cur *tmproto.Header) (o Obs) {
 	default:
 		panic("unknown op " + op.T)
 	}
-	return o
+	return o, evs
 }
 
 // execOOB: the keeper calls x/xibc/testing performs directly on the deliver state.
@@ -271,6 +274,8 @@ type Chain struct {
 	inBlock    bool
 	AppHash    []byte
 
+	lastEvents []abci.Event
+
 	Ops  []Op
 	Obs  []Obs
 	Rand *hlib.Rand
@@ -278,7 +283,8 @@ type Chain struct {
 }
 
 func (c *Chain) do(op Op) Obs {
-	o := Exec(c.App, op, &c.Cur)
+	o, evs := Exec(c.App, op, &c.Cur)
+	c.lastEvents = evs
 	c.Ops = append(c.Ops, op)
 	c.Obs = append(c.Obs, o)
 	if op.Tag != "" {
